@@ -72,7 +72,7 @@ def detTags (p : DetParsed) : List String :=
     txs.any STx.globalSplit && (nonGlobalAffiliates txs).length ≥ 3)
   let runs := (p.modes.head?.map (·.runs)).getD 0
   let exits := Costs.dedup (p.modes.map (·.exit))
-  let nt := if secs.length ≥ 2 && runs ≥ 2 then "C09" else ""
+  let nt := if secs.length ≥ 2 && runs ≥ 2 then "C09,C08" else ""
   [s!"nt={nt}", s!"nsec={secs.length}", s!"gsplit3={shapeA}", s!"runs={runs}", s!"modes={p.modes.length}",
    s!"exits={exits.length}", s!"exit0={(p.modes.head?.map (·.exit)).getD 0}"]
 
@@ -86,6 +86,22 @@ def runDeterminism (c : Case) : Res :=
     | some m => { verdict := "ORACLE", tags := "of=C09" :: s!"mode={m.name}" :: tags,
                   msg := s!"mode {m.name}: {m.distinct} different outputs in {m.runs} runs of the same command; first difference: {m.diff}" }
     | none =>
+      -- --csv-output-dir writes one file per security (plus the aggregate and the two cost tables):
+      -- a missing file means two securities were written to the same name (C08: one security's
+      -- report silently replaces another's)
+      let nsecs := ((kv? c.header "secs").bind (·.toNat?)).getD 0
+      let csvDirLine := (linesOf c "impl" (some "mode")).find? (fun l => l[2]? == some "csv-dir")
+      let nfiles := (csvDirLine.bind (fun l => (l.dropWhile (· != "files")).drop 1 |>.head?)).bind (·.toNat?)
+      match nfiles with
+      | some nf =>
+        if nsecs > 0 && nf ≠ nsecs + 3 && (p.modes.find? (fun m => m.name == "csv-dir")).map (·.exit) == some 0 then
+          { verdict := "ORACLE", tags := "of=C08" :: tags,
+            msg := s!"--csv-output-dir wrote {nf} files for {nsecs} securities (expected one per security plus 3 tables)" }
+        else
+          match detDiff p with
+          | some e => { verdict := "DIFF", tags := "dk=splits" :: tags, msg := e }
+          | none => { verdict := "ok", tags := tags }
+      | none =>
       match detDiff p with
       | some e => { verdict := "DIFF", tags := "dk=splits" :: tags, msg := e }
       | none => { verdict := "ok", tags := tags }
